@@ -441,8 +441,12 @@ def who(ctx):
                            fn=f.label, inst=f.qname)
         for st in f.stmts.values():
             if st["k"] == "CallExpr" and re.match(r"^std::allocator_traits<.*>::(destroy|deallocate)$", callee_fq(st)):
+                top_ = f
+                if f.is_lambda:
+                    from ..guards import top_function
+                    top_ = top_function(ctx.fb, f) or f      # a clean-up closure belongs to the function that wrote it
                 ok = (f.name == "unlock" and f.rec == GUARD) or (f.kind == "dtor" and f.rec == RCU) or \
-                    f.name in ("allocate_unique",) or f.rec == "gmlc::libguarded::detail::deallocator"
+                    top_.name in ("allocate_unique",) or f.rec == "gmlc::libguarded::detail::deallocator"
                 if not ok and len(st["args"]) > 1 and "zombie_list_node" in (f.s(st["args"][1]) or {}).get("t", "") and \
                         any(a_["k"] == "CXXCatchStmt" for a_ in f.ancestors(st)):
                     ok = True       # roll-back of reclamation records that were allocated but never pushed onto the log
